@@ -68,4 +68,8 @@ func (c *memberEventCoalescer) Flush(outCh chan<- Event) {
 	for _, event := range events {
 		outCh <- *event
 	}
+
+	// Start the next quantum with no pending events, so that a member is
+	// only reported again once a new event arrives for it
+	c.latestEvents = make(map[string]coalesceEvent)
 }
